@@ -2,6 +2,7 @@
 #include "vf_rt.h"
 
 uint8_t vf_fatal_assume = 0;
+uint8_t vf_dead = 0, vf_stepping = 0;
 uint32_t vf_cur = 0;
 uint8_t vf_probe_mode = 0;
 uint16_t vf_pc[VF_MAXT];
@@ -9,6 +10,12 @@ uint8_t vf_done[VF_MAXT], vf_enabled[VF_MAXT], vf_blocked[VF_MAXT], vf_pausecnt[
 uint8_t vf_unwinding = 0;
 uint32_t vf_jmpval = 0;
 
+uint32_t vf_cv_snap[VF_MAXT];
+void vf_cv_wait_block(char* cv, char* lk) {
+  if (*(uint32_t*)cv == vf_cv_snap[vf_cur]) { VF_BLOCK(); return; }
+  vf_hb_edge_in(cv);
+}
+void vf_cv_wait_relock(char* cv, char* lk) { (void)x_pthread_mutex_lock(*(char**)lk); }
 void vf_set_fatal_assume(uint32_t v) { vf_fatal_assume = (uint8_t)v; }
 void vf_yield(void) {}
 void vf_reach(void) { VF_REACH(); }
